@@ -417,7 +417,8 @@ def _runinfo_check(self, act, exp, real_runs):
             continue
         e = self.producer[d]
         latest_attempt_succeeded = self.producer.get('attempt', {}).get(d, e['seq']) == e['seq']
-        stem = p.name.split('.')[0]
+        ext = gen.EXT.get(m.kind[m.slug(d)]) or ''
+        stem = p.name[:-len(ext)] if ext and p.name.endswith(ext) else p.name     # the key (config names may hold dots)
         label = f'{m.slug(d)}#{d}'
         try:
             info = yaml.safe_load((p.parent / f'{stem}.run_info.yaml').read_text())
@@ -460,9 +461,11 @@ def _runinfo_check(self, act, exp, real_runs):
             dd = m.did[(rc, dep)]
             dps = self.paths().get(dd, set())
             if len(dps) == 1 and next(iter(dps)) is not None:
-                want_inputs[dep.split('::')[-1]] = Path(next(iter(dps))).name.split('.')[0]
+                dext = gen.EXT.get(m.kind[m.slug(dd)]) or ''
+                dname = Path(next(iter(dps))).name
+                want_inputs[dep.split('::')[-1]] = dname[:-len(dext)] if dext and dname.endswith(dext) else dname
         got_inputs = {k.split('::')[-1]: v for k, v in (info.get('input_tasks') or {}).items()}
-        if m.kind and want_inputs and got_inputs != want_inputs:
+        if m.kind and want_inputs and not m.name_mode and got_inputs != want_inputs:     # (name mode records no input keys)
             mm.append(('runinfo', f'run info of {label} records input keys {info.get("input_tasks")}, the inputs are stored '
                                   f'under {want_inputs}'))
         namespaces = {m.res[r][n]['ns'] for (r, n), dv in m.did.items() if dv == d}
